@@ -369,7 +369,7 @@ class AffineDomain(Domain):
         if isinstance(op, ast.Sub):
             return self.add(a, self.neg(b))
         if isinstance(op, ast.Mult):
-            return A(a.num * b.num, a.den * b.den) if not (a.den == ONE and b.den == ONE) else A(a.num * b.num)
+            return self.norm(A(a.num * b.num, a.den * b.den)) if not (a.den == ONE and b.den == ONE) else A(a.num * b.num)
         if isinstance(op, ast.Div):
             return self.div(a, b)
         if isinstance(op, ast.FloorDiv):
@@ -393,6 +393,25 @@ class AffineDomain(Domain):
     def norm(self, v: A) -> A:
         if v.den.is_const() and v.den != ONE:
             return A(v.num.scale(1 / v.den.const_value()))
+        if len(v.den.t) == 1 and not v.den.is_const() and v.num.t:
+            # cancel the common monomial factor of a single-term denominator
+            (dm, dc), = v.den.t.items()
+            dpow = dict(dm)
+            common = dict(dpow)
+            for m in v.num.t:
+                mp = dict(m)
+                for a in list(common):
+                    common[a] = min(common[a], mp.get(a, 0))
+            common = {a: p for a, p in common.items() if p > 0}
+            if common:
+                def strip(m):
+                    mp = dict(m)
+                    for a, p in common.items():
+                        mp[a] = mp.get(a, 0) - p
+                    return tuple(sorted(((a, p) for a, p in mp.items() if p), key=lambda x: _key(x[0])))
+                num = Poly({strip(m): c for m, c in v.num.t.items()})
+                den = Poly({strip(dm): dc})
+                return self.norm(A(num, den))
         return v
 
     def add(self, a: A, b: A) -> A:
@@ -722,8 +741,103 @@ class AffineDomain(Domain):
             return [p, -p]
         return None
 
-    def prove_ge(self, goal: Poly, pcs, extra=()) -> bool:
-        """Is ``goal >= 0`` implied by path conditions + sign facts?  Farkas search with multipliers in {0,1,2}."""
+    # ------------------------------------------------------------------ facts about atoms
+    def _atom_own_facts(self, a, level: int):
+        """(facts, inner polys) for one atom.  Conditional facts are established by nested proofs that only involve
+        the atom's own (structurally smaller) arguments, so the recursion is well-founded."""
+        cache = self.__dict__.setdefault("_fact_cache", {})
+        k = _key(a)
+        if k in cache:
+            return cache[k]
+        at = Poly.atom(a)
+        facts, inner = [], []
+
+        def nested(p: Poly) -> bool:
+            if level >= 6:
+                return False
+            return self.prove_ge(p, (), _level=level + 1)
+
+        if a[0] == "sym":
+            base = a[1].split("[")[0]
+            if a[1] in self.positive or base in self.positive:
+                facts.append(at - Poly.const(1) if self.is_integer_atom(a) else at)
+            elif a[1] in self.nonneg or base in self.nonneg:
+                facts.append(at)
+            rng = getattr(self, "ranges", {}).get(a[1])
+            if rng is not None:
+                lo, hi = rng
+                if lo is not None and lo.is_poly():
+                    facts.append(at - lo.poly())
+                    inner.append(lo.poly())
+                if hi is not None and hi.is_poly():
+                    facts.append(hi.poly() - at)
+                    inner.append(hi.poly())
+        elif a[0] in ("floor", "ceil", "int", "round") and isinstance(a[-1], A) and a[-1].is_poly():
+            y = a[-1].poly()
+            inner.append(y)
+            frac = None
+            for k_ in (2, 3, 4):
+                if self.is_integer(A(y.scale(k_))):
+                    frac = Fraction(k_ - 1, k_)
+                    break
+            if a[0] == "floor":
+                facts += [y - at, at - y + Poly.const(frac if frac is not None else 1)]
+            elif a[0] == "ceil":
+                facts += [at - y, y - at + Poly.const(frac if frac is not None else 1)]
+            elif a[0] == "round":
+                facts += [at - y + Poly.const(Fraction(1, 2)), y - at + Poly.const(Fraction(1, 2))]
+            else:  # int: truncation toward zero
+                facts += [at - y + Poly.const(1), y - at + Poly.const(1)]
+                if nested(y):
+                    facts += [y - at, at]
+                    if frac is not None:
+                        facts.append(at - y + Poly.const(frac))
+                elif nested(-y):
+                    facts += [at - y, -at]
+        elif a[0] == "floordiv" and isinstance(a[-1], A) and a[-1].is_poly():
+            y, k_ = a[-1].poly(), a[2]
+            inner.append(y)
+            facts += [y - at.scale(k_), at.scale(k_) - y + Poly.const(k_ - 1 if self.is_integer(a[-1]) else k_)]
+        elif a[0] in ("min", "max") and isinstance(a[-1], A) and isinstance(a[-2], A) and a[-1].is_poly() and a[-2].is_poly():
+            x, y = a[-2].poly(), a[-1].poly()
+            inner += [x, y]
+            if a[0] == "min":
+                facts += [x - at, y - at]
+            else:
+                facts += [at - x, at - y]
+        elif a[0] == "abs" and isinstance(a[-1], A) and a[-1].is_poly():
+            y = a[-1].poly()
+            inner.append(y)
+            facts += [at - y, at + y]
+        elif a[0] == "sqrt":
+            facts.append(at)
+        cache[k] = (facts, inner)
+        return cache[k]
+
+    def atom_facts(self, polys, level=0) -> list:
+        """Sound facts (p >= 0) about every atom occurring in ``polys`` (closure over nested arguments and ranges)."""
+        seen = set()
+        work = []
+        for p in polys:
+            work += list(p.atoms())
+        facts = []
+        while work:
+            a = work.pop()
+            k = _key(a)
+            if k in seen:
+                continue
+            seen.add(k)
+            f, inner = self._atom_own_facts(a, level)
+            facts += f
+            for q in inner:
+                work += list(q.atoms())
+        return facts
+
+    def prove_ge(self, goal: Poly, pcs, extra=(), _level=0, _split=True, **_ignored) -> bool:
+        """Is ``goal >= 0`` implied by the path conditions, ``extra`` facts and the sound bounds of the atoms?
+        Exact Fourier-Motzkin refutation of {facts >= 0, -goal > 0} over the rationals (atoms / monomials as free variables,
+        integer tightening, facts multiplied by positive symbols), with a complete case split over the min/max atoms
+        involved when the direct attempt fails."""
         cons = []
         for c in pcs:
             if isinstance(c, BoolC):
@@ -731,42 +845,83 @@ class AffineDomain(Domain):
                 if g:
                     cons += g
         cons += list(extra)
-        allatoms = set(goal.atoms())
-        for c in cons:
-            allatoms |= c.atoms()
-        allp = Poly()
-        for a in allatoms:
-            allp = allp + Poly.atom(a)
-        for b, _ in self.bounds_for(allp):
-            cons.append(b)
-        # rounding atoms: floor(y) <= y, floor(y) > y-1 ; ceil(y) >= y, ceil(y) < y+1 ; int(y): |int(y)-y| < 1
-        for a in allp.atoms():
-            if a[0] in ("floor", "ceil", "int", "round") and isinstance(a[-1], A) and a[-1].is_poly():
-                y = a[-1].poly()
-                at = Poly.atom(a)
-                if a[0] == "floor":
-                    cons += [y - at, at - y + Poly.const(1)]
-                elif a[0] == "ceil":
-                    cons += [at - y, y - at + Poly.const(1)]
-                elif a[0] == "int":
-                    cons += [at - y + Poly.const(1), y - at + Poly.const(1)]
-                elif a[0] == "round":
-                    cons += [at - y + Poly.const(Fraction(1, 2)), y - at + Poly.const(Fraction(1, 2))]
-        cons = [c for c in cons if c.is_linear()]
-        if not goal.is_linear():
+        base = list(cons)
+        facts = self.atom_facts([goal] + cons, _level)
+        rows = self._rows(goal, cons + facts)
+        if _fm_infeasible(rows, is_int=self.is_integer_atom):
+            return True
+        if not _split:
             return False
-        if len(cons) > 14:
-            cons = cons[:14]
-        for lam in itertools.product((0, 1, 2), repeat=len(cons)):
-            if sum(lam) > 4:
+        mm = self._minmax_atoms([goal] + cons + facts)
+        if not mm or len(mm) > 5:
+            return False
+        return self._split_prove(goal, base, mm, _level)
+
+    def _rows(self, goal: Poly, cons: list):
+        """Rows for FM; facts of degree <= 1 are additionally multiplied by the positive symbols that occur in non-linear monomials."""
+        pos = set()
+        for p in [goal] + cons:
+            for m in p.t:
+                if len(m) > 1 or any(pw > 1 for _, pw in m):
+                    for a, _ in m:
+                        if a[0] == "sym":
+                            b = a[1].split("[")[0]
+                            if a[1] in self.positive or b in self.positive:
+                                pos.add(a)
+        extra = []
+        for u in list(pos)[:2]:
+            up = Poly.atom(u)
+            for c in cons:
+                if c.is_linear():
+                    extra.append(c * up)
+        return [(c, False) for c in cons + extra] + [(-goal, True)]
+
+    def _minmax_atoms(self, polys):
+        out = {}
+        work = []
+        for p in polys:
+            work += list(p.atoms())
+        seen = set()
+        while work:
+            a = work.pop()
+            k = _key(a)
+            if k in seen:
                 continue
-            r = goal
-            for l, c in zip(lam, cons):
-                if l:
-                    r = r - c.scale(l)
-            if r.is_const() and r.const_value() >= 0:
-                return True
-        return False
+            seen.add(k)
+            if a[0] in ("min", "max") and isinstance(a[-1], A) and isinstance(a[-2], A) and a[-1].is_poly() and a[-2].is_poly():
+                out[k] = a
+                work += list(a[-1].poly().atoms()) + list(a[-2].poly().atoms())
+            elif a[0] in ("floor", "ceil", "int", "round", "floordiv", "abs") and isinstance(a[-1], A) and a[-1].is_poly():
+                work += list(a[-1].poly().atoms())
+            elif a[0] == "sym":
+                rng = getattr(self, "ranges", {}).get(a[1])
+                if rng is not None:
+                    for b in rng:
+                        if b is not None and b.is_poly():
+                            work += list(b.poly().atoms())
+        return list(out.values())
+
+    def _split_prove(self, goal: Poly, cons: list, mm: list, level: int) -> bool:
+        import itertools as _it
+        for choice in _it.product((0, 1), repeat=len(mm)):
+            mapping = {}
+            side = []
+            for a, ch in zip(mm, choice):
+                x, y = a[-2].poly(), a[-1].poly()
+                pick, other = (x, y) if ch == 0 else (y, x)
+                mapping[a] = pick
+                side.append(other - pick if a[0] == "min" else pick - other)
+
+            def sub(p):
+                for _ in range(3):
+                    p = p.subs(mapping)
+                return p
+            g = sub(goal)
+            cs = [sub(c) for c in cons] + [sub(c) for c in side]
+            facts = [sub(f_) for f_ in self.atom_facts([goal] + cons + side, level)]
+            if not _fm_infeasible(self._rows(g, cs + facts), is_int=self.is_integer_atom):
+                return False
+        return True
 
     def infeasible(self, pcs) -> bool:
         """Path conditions contradict each other (prove -1 >= 0)."""
@@ -774,6 +929,179 @@ class AffineDomain(Domain):
             return self.prove_ge(Poly.const(-1), pcs)
         except Exception:
             return False
+
+    def sign_positive(self, p: Poly) -> bool:
+        """p is a single monomial with positive coefficient whose atoms are all known-positive symbols."""
+        if len(p.t) != 1:
+            return False
+        (m, c), = p.t.items()
+        if c <= 0:
+            return False
+        for a, pw in m:
+            if a[0] != "sym":
+                return False
+            base = a[1].split("[")[0]
+            if not (a[1] in self.positive or base in self.positive):
+                return False
+        return True
+
+    def prove_ge_form(self, v: "A", pcs=(), extra=()) -> bool | None:
+        """v >= 0 for a rational form; None when the denominator's sign is unknown."""
+        if v.is_poly():
+            return self.prove_ge(v.poly(), pcs, extra)
+        if self.sign_positive(v.den):
+            return self.prove_ge(v.num, pcs, extra)
+        return None
+
+    def prove_gt(self, goal: Poly, pcs, extra=()) -> bool:
+        """goal > 0 ; for integer-valued goals this is goal - 1 >= 0."""
+        if self.is_integer(A(goal)):
+            return self.prove_ge(goal - Poly.const(1), pcs, extra)
+        cons = []
+        for c in pcs:
+            if isinstance(c, BoolC):
+                g = self.to_ge(c)
+                if g:
+                    cons += g
+        cons += list(extra)
+        cons += self.atom_facts([goal] + cons)
+        rows = self._rows(goal, cons)
+        rows[-1] = (-goal, False)
+        return _fm_infeasible(rows, is_int=self.is_integer_atom)
+
+    # ------------------------------------------------------------------ evaluation of forms / witness search
+    def eval_poly(self, p: Poly, asg: dict):
+        total = Fraction(0)
+        for m, c in p.t.items():
+            x = Fraction(c)
+            for a, pw in m:
+                v = self.eval_atom(a, asg)
+                if v is None:
+                    return None
+                x *= Fraction(v) ** pw
+            total += x
+        return total
+
+    def eval_form(self, v: "A", asg: dict):
+        n = self.eval_poly(v.num, asg)
+        d = self.eval_poly(v.den, asg)
+        if n is None or d is None or d == 0:
+            return None
+        return n / d
+
+    def eval_atom(self, a, asg: dict):
+        import math
+        if a[0] == "sym":
+            return asg.get(a[1])
+        if a[0] in ("int", "floor", "ceil", "round", "abs", "sqrt"):
+            y = self.eval_form(a[-1], asg) if isinstance(a[-1], A) else None
+            if y is None:
+                return None
+            if a[0] == "int":
+                return Fraction(math.trunc(y))
+            if a[0] == "floor":
+                return Fraction(math.floor(y))
+            if a[0] == "ceil":
+                return Fraction(math.ceil(y))
+            if a[0] == "round":
+                return Fraction(round(y))
+            if a[0] == "abs":
+                return abs(y)
+            return None
+        if a[0] == "floordiv":
+            y = self.eval_form(a[-1], asg)
+            return None if y is None else Fraction(math.floor(y / a[2]))
+        if a[0] in ("min", "max"):
+            x, y = self.eval_form(a[-2], asg), self.eval_form(a[-1], asg)
+            if x is None or y is None:
+                return None
+            return min(x, y) if a[0] == "min" else max(x, y)
+        return None
+
+    def base_syms(self, forms) -> list:
+        """All symbols reachable from the forms (through nested atoms and ranges)."""
+        out, seen, work = [], set(), []
+        for f in forms:
+            work += list(f.num.atoms()) + list(f.den.atoms())
+        while work:
+            a = work.pop()
+            k = _key(a)
+            if k in seen:
+                continue
+            seen.add(k)
+            if a[0] == "sym":
+                out.append(a[1])
+                rng = getattr(self, "ranges", {}).get(a[1])
+                if rng:
+                    for b in rng:
+                        if b is not None:
+                            work += list(b.num.atoms()) + list(b.den.atoms())
+            else:
+                for x in a:
+                    if isinstance(x, A):
+                        work += list(x.num.atoms()) + list(x.den.atoms())
+        return out
+
+    def find_witness(self, goal: "A", pcs=(), tol=Fraction(0), tries: int = 4000, seed: int = 0):
+        """Search a concrete assignment of the symbols (respecting sign facts, ranges and path conditions) under which
+        ``goal < -tol``.  Evaluates the extracted forms only; the analysed code is never run."""
+        import random
+        rnd = random.Random(seed)
+        syms_ = self.base_syms([goal] + [c.diff for c in pcs if isinstance(c, BoolC)])
+        ranged = [s_ for s_ in syms_ if s_ in getattr(self, "ranges", {})]
+        free = [s_ for s_ in syms_ if s_ not in ranged]
+        # order ranged symbols by creation index so that bounds are evaluable
+        def idx(nm):
+            try:
+                return int(nm.split("#")[1])
+            except Exception:
+                return 0
+        ranged.sort(key=idx)
+        real_vals = [Fraction(0), Fraction(3, 10), Fraction(1, 2), Fraction(7, 10), Fraction(1), Fraction(213, 100), Fraction(5, 2), Fraction(3)]
+        int_vals = [1, 2, 3, 4, 5, 6, 7, 9, 20]
+        for _ in range(tries):
+            asg = {}
+            for s_ in free:
+                b = s_.split("[")[0]
+                is_int = s_ in self.integer or b in self.integer
+                pos = s_ in self.positive or b in self.positive
+                nn = s_ in self.nonneg or b in self.nonneg
+                if is_int:
+                    v = rnd.choice(int_vals) if pos else (rnd.choice([0] + int_vals) if nn else rnd.choice([-3, -1, 0] + int_vals))
+                else:
+                    v = rnd.choice(real_vals[1:]) if pos else (rnd.choice(real_vals) if nn else rnd.choice([-x for x in real_vals] + real_vals))
+                asg[s_] = Fraction(v)
+            ok = True
+            for s_ in ranged:
+                lo, hi = self.ranges[s_]
+                lo_v = self.eval_form(lo, asg) if lo is not None else Fraction(-5)
+                hi_v = self.eval_form(hi, asg) if hi is not None else Fraction(5)
+                if lo_v is None or hi_v is None or lo_v > hi_v:
+                    ok = False
+                    break
+                if s_ in self.integer:
+                    import math
+                    a_, b_ = math.ceil(lo_v), math.floor(hi_v)
+                    if a_ > b_:
+                        ok = False
+                        break
+                    asg[s_] = Fraction(rnd.choice([a_, b_, rnd.randint(a_, b_)]))
+                else:
+                    asg[s_] = rnd.choice([lo_v, hi_v, (lo_v + hi_v) / 2])
+            if not ok:
+                continue
+            for c in pcs:
+                if isinstance(c, BoolC):
+                    v = self.eval_form(c.diff, asg)
+                    if v is None or not {"<": v < 0, "<=": v <= 0, ">": v > 0, ">=": v >= 0, "==": v == 0, "!=": v != 0}[c.op]:
+                        ok = False
+                        break
+            if not ok:
+                continue
+            g = self.eval_form(goal, asg)
+            if g is not None and g < -tol:
+                return {k: (float(v) if v.denominator != 1 else int(v)) for k, v in asg.items()}, float(g)
+        return None
 
     def witness(self, goal: Poly, pcs, rng=range(-3, 5)):
         """Small integer assignment of the symbols satisfying the path conditions with goal < 0
@@ -819,3 +1147,81 @@ class AffineDomain(Domain):
             if ok and ev(goal) < 0:
                 return {fmt_atom(k): v for k, v in asg.items()}
         return None
+
+
+def _fm_infeasible(rows, limit=4000, is_int=None) -> bool:
+    """rows: list of (linear Poly p, strict) meaning p >= 0 (or p > 0).  True iff the system has no rational solution
+    (with integer tightening of rows whose variables are all integer-valued)."""
+    intvar: dict = {}
+
+    def lin(p):
+        # every distinct monomial is an independent variable (sound relaxation for non-linear terms)
+        d = {}
+        c = Fraction(0)
+        for m, v in p.t.items():
+            if m == ():
+                c = v
+            else:
+                k = repr(tuple((_key(a), pw) for a, pw in m))
+                d[k] = v
+                if is_int is not None and k not in intvar:
+                    intvar[k] = all(is_int(a) for a, _ in m)
+        return d, c
+
+    def tighten(d, c, st):
+        if not d or is_int is None or not all(intvar.get(k, False) for k in d):
+            return d, c, st
+        import math
+        den = 1
+        for v in d.values():
+            den = den * v.denominator // math.gcd(den, v.denominator)
+        g = 0
+        for v in d.values():
+            g = math.gcd(g, int(v * den))
+        if g == 0:
+            return d, c, st
+        f = Fraction(den, g)
+        d2 = {k: v * f for k, v in d.items()}
+        c2 = c * f
+        # sum(int) + c2 >= 0 (or > 0)  ->  sum(int) >= ceil(-c2)  (strict: > -c2 -> >= floor(-c2)+1)
+        if st:
+            c3 = -(math.floor(-c2) + 1)
+            return d2, Fraction(c3), False
+        return d2, Fraction(math.floor(c2)), False
+
+    sys_ = [(lin(p) + (st,)) for p, st in rows]
+    sys_ = [tighten(d, c, st) for (d, c, st) in sys_]
+    variables = set()
+    for d, c, st in sys_:
+        variables |= set(d)
+    for v in sorted(variables):
+        pos = [(d, c, st) for d, c, st in sys_ if d.get(v, 0) > 0]
+        neg = [(d, c, st) for d, c, st in sys_ if d.get(v, 0) < 0]
+        rest = [(d, c, st) for d, c, st in sys_ if d.get(v, 0) == 0]
+        new = rest
+        for d1, c1, s1 in pos:
+            for d2, c2, s2 in neg:
+                a, b = d1[v], -d2[v]
+                d = {}
+                for k in set(d1) | set(d2):
+                    if k == v:
+                        continue
+                    val = d1.get(k, 0) * b + d2.get(k, 0) * a
+                    if val != 0:
+                        d[k] = val
+                new.append(tighten(d, c1 * b + c2 * a, s1 or s2))
+        if len(new) > limit:
+            return False
+        # drop duplicates
+        seen = set()
+        sys_ = []
+        for d, c, st in new:
+            key = (tuple(sorted(d.items())), c, st)
+            if key not in seen:
+                seen.add(key)
+                sys_.append((d, c, st))
+    for d, c, st in sys_:
+        if not d:
+            if (st and c <= 0) or (not st and c < 0):
+                return True
+    return False
